@@ -192,17 +192,20 @@ Fixpoint mcp (fuel : nat) (len : Z) (cs : frag) (rs : list frag) (dw dr : frag) 
 
 Definition mcp_fuel (src dest : list frag) : nat := 2 * (length src + length dest) + 2.
 
-(* mpt_memcpy: (return value, target parts afterwards) *)
+(* mpt_memcpy: (return value, target parts afterwards).  As the code is WITH
+   docs/C17_memcpy_noparts.diff: the size check (-1 source too short, -2 target too
+   short) comes before the "no part" exit, so a zero part COUNT is treated like one
+   empty part. *)
 Definition m_memcpy (len : Z) (src dest : list frag) : option (Z * list frag) :=
-  match src, dest with
+  if (0 <? len)%Z && (Z.of_nat (total_len src) <? len)%Z then Some ((-1)%Z, dest)
+  else if (0 <? len)%Z && (Z.of_nat (total_len dest) <? len)%Z then Some ((-2)%Z, dest)
+  else match src, dest with
   | [], _ | _, [] => Some (0%Z, dest)
   | s0 :: rs, d0 :: rdst =>
-    if (0 <? len)%Z && (Z.of_nat (total_len src) <? len)%Z then Some ((-1)%Z, dest)
-    else if (0 <? len)%Z && (Z.of_nat (total_len dest) <? len)%Z then Some ((-2)%Z, dest)
-    else match mcp (mcp_fuel src dest) len s0 rs [] d0 rdst with
-         | Some (t, o) => Some (Z.of_nat t, o)
-         | None => None
-         end
+    match mcp (mcp_fuel src dest) len s0 rs [] d0 rdst with
+    | Some (t, o) => Some (Z.of_nat t, o)
+    | None => None
+    end
   end.
 
 (* ---------------------------------------------------------------- message_argv.c *)
@@ -348,6 +351,148 @@ Definition m_array_message (m : msg) (asep : byte) : option (res (nat * list byt
   if m_length m =? 0 then Some (Ok (0, []))
   else amsg_go (S (m_length m)) m asep [] 0.
 
+(* ---------------------------------------------------------------- refusing array (message_append.c, array_message.c) *)
+(* mpt_array_append / mpt_array_slice as their callers see them: the call succeeds or
+   returns NULL (typed buffer, no memory) without changing the array.  [lim] = how
+   many further calls succeed (None: all; a typed buffer: Some 0).
+   lim_take: None = this call fails, Some l = it succeeds and l is left. *)
+Definition lim_take (lim : option nat) : option (option nat) :=
+  match lim with
+  | None => Some None
+  | Some 0 => None
+  | Some (S j) => Some (Some j)
+  end.
+
+(* mpt_message_append with the failure branches: (false, _) = MissingBuffer after
+   `buf->_used = olen`; the first part and the continuation parts are treated alike
+   (empty ones skipped, the others appended) *)
+Fixpoint mapp (olen : nat) (a : list byte) (lim : option nat) (fs : list frag) : bool * list byte :=
+  match fs with
+  | [] => (true, a)
+  | f :: r =>
+    if length f =? 0 then mapp olen a lim r
+    else match lim_take lim with
+         | None => (false, firstn olen a)
+         | Some l => mapp olen (a ++ f) l r
+         end
+  end.
+Definition m_append_lim (arr : list byte) (lim : option nat) (m : msg) : bool * list byte :=
+  mapp (length arr) arr lim (frags m).
+
+(* mpt_array_message with the failure branches; [pre] = content of the caller's array
+   before the call (kept on failure, cleared for an empty message, replaced otherwise) *)
+Fixpoint amsgl_go (fuel : nat) (m : msg) (asep : byte) (arr : list byte) (narg : nat) (lim : option nat)
+  : option (res (nat * list byte)) :=
+  match fuel with
+  | 0 => None
+  | S fu =>
+    match m_argv m asep with
+    | Fault => Some Fault
+    | Err e => Some (Err e)
+    | Ok (Err _, _) => Some (Ok (narg, arr))
+    | Ok (Fault, _) => Some Fault
+    | Ok (Ok len, m1) =>
+      if (len =? 0) && negb (asep =? 0)%N then Some (Ok (narg, arr))
+      else
+        match (if len =? 0 then Some lim else lim_take lim) with
+        | None => Some (Err MissingBuffer)
+        | Some l1 =>
+          match (if len =? 0 then Ok (0, [], m1) else m_read m1 len) with
+          | Ok (cnt, d, m2) =>
+            let arr1 := arr ++ d ++ repeat 0%N (len - cnt) ++ [0%N] in
+            match lim_take l1 with
+            | None => Some (Err MissingBuffer)
+            | Some l2 =>
+              match m_read m2 1 with
+              | Ok (_, _, m3) => amsgl_go fu m3 asep arr1 (S narg) l2
+              | Err e => Some (Err e)
+              | Fault => Some Fault
+              end
+            end
+          | Err e => Some (Err e)
+          | Fault => Some Fault
+          end
+        end
+    end
+  end.
+(* (result, content of the caller's array afterwards) *)
+Definition m_array_message_lim (m : msg) (asep : byte) (lim : option nat) (pre : list byte)
+  : option (res nat * list byte) :=
+  if m_length m =? 0 then Some (Ok 0, [])
+  else match lim_take lim with
+       | None => Some (Err BadOperation, pre)          (* mpt_array_slice refused *)
+       | Some l1 =>
+         match amsgl_go (S (m_length m)) m asep [] 0 l1 with
+         | None => None
+         | Some (Ok (n, a)) => Some (Ok n, a)
+         | Some (Err e) => Some (Err e, pre)
+         | Some Fault => Some (Fault, pre)
+         end
+       end.
+
+(* ---------------------------------------------------------------- absolute positions beyond SSIZE_MAX *)
+(* the "add the lengths of the preceding parts" loops of memchr.c / memfcn.c / memtok.c:
+   a size_t sum, compared with SSIZE_MAX after every addition; None = EOVERFLOW *)
+Definition ssize_max : N := 9223372036854775807.
+Definition size_mod : N := 18446744073709551616.
+Fixpoint pos_acc (pos : N) (lens : list N) : option N :=
+  match lens with
+  | [] => Some pos
+  | l :: r => let p := ((pos + l) mod size_mod)%N in
+              if (ssize_max <? p)%N then None else pos_acc p r
+  end.
+
+(* backward search that reports (part index, offset inside the part) *)
+Fixpoint bwd_idx (find : frag -> option nat) (data : list frag) (i : nat) : res (option (nat * nat)) :=
+  match i with
+  | 0 => Ok None
+  | S j => match nth_error data j with
+           | None => Fault
+           | Some f => match find f with
+                       | Some k => Ok (Some (j, k))
+                       | None => bwd_idx find data j
+                       end
+           end
+  end.
+Definition lensN (d : list frag) : list N := map (fun f => N.of_nat (length f)) d.
+
+(* the match functions the harness passes to mpt_memfcn/mpt_memrfcn *)
+Definition fcn_of (k : nat) : byte -> bool :=
+  match k with 0 => is_space | 1 => not_space | _ => is_graph end.
+
+(* the match predicates of the three backward searches *)
+Inductive rkind := RChr (b : byte) | RFcn (k : nat) | RStr (set : list byte).
+
+(* a backward search over  <one part of [big] bytes> :: data  that finds its byte in
+   [data] (the leading part is then never looked at, only its length is added):
+   mpt_memrchr adds the preceding lengths from part i-1 down to part 0, mpt_memrfcn
+   (and mpt_memrstr through it) from part 0 up.  None = nothing found in data (the
+   harness does not make the call then). *)
+Inductive rpos := RSkip | ROverflow | RAt (p : N) | RFault.
+Definition m_rbig (big : N) (data : list frag) (k : rkind) : rpos :=
+  let '(find, up) := match k with
+                     | RChr b => (blk_rfind (N.eqb b), false)
+                     | RFcn n => (blk_rfind (fcn_of n), true)
+                     | RStr set => (blk_rfind (fun c => in_set c set), true)
+                     end in
+  match (match k with RStr [] => Ok None | _ => bwd_idx find data (length data) end) with
+  | Fault | Err _ => RFault
+  | Ok None => RSkip
+  | Ok (Some (j, off)) =>
+    let pre := big :: lensN (firstn j data) in
+    match pos_acc (N.of_nat off) (if up then pre else rev pre) with
+    | None => ROverflow
+    | Some p => RAt p
+    end
+  end.
+
+(* ---------------------------------------------------------------- missing arguments (EFAULT) *)
+(* which = 0/1 mpt_memfcn(NULL data / NULL function), 2/3 mpt_memrfcn likewise,
+   4/5 mpt_memstr / mpt_memrstr with NULL match bytes and a non-zero count, 6 mpt_memtok(NULL data),
+   7/8 mpt_memstr / mpt_memrstr with NULL data, 9/10 mpt_memstr / mpt_memrstr with a zero
+   match count (0 before anything is looked at): true = -1 (EFAULT), false = 0 *)
+Definition m_nullarg (which : nat) : bool := which <? 9.
+
 (* ---------------------------------------------------------------- operations / histories *)
 Inductive op :=
 | OpSet (F : list frag)
@@ -361,7 +506,12 @@ Inductive op :=
 | OpCpy (len : Z) (dest : list frag)
 | OpApp (pre : list byte)
 | OpGet (q : ring) (off take : nat) (vec : bool)
-| OpAmsg (sep : byte).
+| OpAmsg (sep : byte)
+| OpAppL (pre : list byte) (lim : option nat)
+| OpAmsgL (sep : byte) (lim : option nat) (pre : list byte)
+| OpAmsgNull
+| OpNullArg (which : nat)
+| OpRBig (big : N) (k : rkind).
 
 Inductive out :=
 | ORead (n : nat) (d : option (list byte))
@@ -371,12 +521,19 @@ Inductive out :=
 | OCpy (r : Z) (dest : list byte)
 | OArr (n : nat) (a : list byte)
 | OGet (r : res nat)
+| OArrE (e : err) (a : list byte)
+| OPosE
+| ORBig (r : rpos)
 | OFault
 | OFuel.
 
-(* the match functions the harness passes to mpt_memfcn/mpt_memrfcn *)
-Definition fcn_of (k : nat) : byte -> bool :=
-  match k with 0 => is_space | 1 => not_space | _ => is_graph end.
+Definition amsgl_out (r : option (res nat * list byte)) : out :=
+  match r with
+  | Some (Ok n, a) => OArr n a
+  | Some (Err e, a) => OArrE e a
+  | Some (Fault, _) => OFault
+  | None => OFuel
+  end.
 
 Definition pos_out (r : res (option nat)) : out :=
   match r with Ok p => OPos p | _ => OFault end.
@@ -421,6 +578,15 @@ Definition mstep (F : list frag) (o : op) : list frag * out :=
     | Some _ => (F, OFault)
     | None => (F, OFuel)
     end
+  | OpAppL pre lim =>
+    match m_append_lim pre lim (msg_of F) with
+    | (true, a) => (F, OArr 0 a)
+    | (false, a) => (F, OArrE MissingBuffer a)
+    end
+  | OpAmsgL sep lim pre => (F, amsgl_out (m_array_message_lim (msg_of F) sep lim pre))
+  | OpAmsgNull => (F, OArr 0 [])
+  | OpNullArg which => (F, if m_nullarg which then OPosE else OPos (Some 0))
+  | OpRBig big k => (F, ORBig (m_rbig big F k))
   end.
 
 Fixpoint mrun (F : list frag) (ops : list op) : list (out * list frag) :=
